@@ -12,8 +12,10 @@ func init() { handlers["c12"] = c12 }
 func c12(line string) string {
 	f := strings.Split(line, "\t")
 	var pats []string
-	for _, p := range strings.Split(f[0], ",") {
-		pats = append(pats, unhex(p))
+	if f[0] != "-" { // "-" stands for the empty list of patterns
+		for _, p := range strings.Split(f[0], ",") {
+			pats = append(pats, unhex(p))
+		}
 	}
 	m, _ := strconv.Atoi(f[1])
 	s := unhex(f[2])
